@@ -40,6 +40,7 @@ def resultJson (id : String) (r : RunResult) : String :=
   ",\"err\":[" ++ String.intercalate "," (r.errLines.map fun l => "\"" ++ toHex l ++ "\"") ++ "]" ++
   ",\"fs\":[" ++ String.intercalate "," (r.fs.map nodeJson) ++ "]" ++
   ",\"stdin_left\":\"" ++ toHex r.stdinLeft ++ "\"" ++
+  ",\"steps\":" ++ toString r.steps ++
   ",\"inconclusive\":" ++ (if r.inconclusive then "true" else "false") ++
   ",\"crash\":" ++ (match r.crash with | some p => "\"" ++ toString (repr p) ++ "\"" | none => "null") ++ "}"
 
